@@ -133,3 +133,8 @@ package db
 //@   ensures old(l.intx) ==> l.txcache != nil && l.txcache.kvhas[bytes(key)] && l.txcache.kvval[bytes(key)] == bytes(value)
 //@   ensures !old(l.intx) && l.cache != nil ==> l.cache.kvhas[bytes(key)] && l.cache.kvval[bytes(key)] == bytes(value)
 //@   ensures old(l.intx) && old(l.txcache) != nil ==> forall k Bytes :: k != bytes(key) ==> l.txcache.kvhas[k] == old(l.txcache.kvhas[k]) && l.txcache.kvval[k] == old(l.txcache.kvval[k])
+
+//@ func setdb2 [C08]
+//@   opt panics=allowed safety=assumed
+//@   frame d.kvhas, d.kvval
+//@   ensures d.kvhas == store(old(d.kvhas), bytes(key), true) && d.kvval == store(old(d.kvval), bytes(key), bytes(value))
